@@ -160,7 +160,7 @@ def _topo_class(P, D, M):
 
 def main(run: core.Run):
     thorough = run.tier == 'thorough'
-    mx = 4 if thorough else 3
+    mx = 5 if thorough else 4
     small = list(enumerate(small_works()))
     cat = [(1000 + i, w) for i, w in enumerate(CATALOGUE)]
     items = []
